@@ -785,7 +785,7 @@ class Executor:
         for g, gexpr in self.spec.ghost_return.items():
             st.vars[g] = self.spec_value(gexpr, st, old=self.old, result=res)
         self.n_ret += 1
-        if self.spec.cover and not self.variant.get("_dead_returns_ok"):
+        if self.spec.cover and not self.variant.get("_dead_returns_ok") and not self.spec.dead_returns_ok:
             self.emit(st, "cover", z3.BoolVal(False), line, expect="refutable")
         # in ensures, parameter names denote the values at entry (parameters may be reassigned by the body)
         pst = st.copy()
